@@ -237,6 +237,10 @@ func AssembleFile(ctx context.Context, name string, idx Index, s Store, seeds []
 	for {
 		validatingPrefix := fmt.Sprintf("Attempt %d: Validating ", attempt)
 		if err := plan.Validate(ctx, options.N, NewProgressBar(validatingPrefix)); err != nil {
+			// An interrupted validation says nothing about the seeds, don't try again
+			if ctx.Err() != nil {
+				return stats, err
+			}
 			// This plan has at least one invalid seed
 			switch options.InvalidSeedAction {
 			case InvalidSeedActionBailOut:
